@@ -9,7 +9,7 @@ from props.C06 import describe, rules
 
 REQUIRED_THEOREMS = ['Usid.C18.shape_type_attrs', 'Usid.C18.fresh_layout', 'Usid.C18.idempotent_keeps_contents',
                      'Usid.C18.occupied_refused', 'Usid.C18.others_untouched']
-RULE = ('[also: occupants of the same kind but twice as wide, of transposed shape; new_attrs left at its default; the element type given as a string / np.dtype; the File object of another file as destination; the returned object and all four links observed] generator datasets (chunked / gzip-compressed or neither) x requested dtypes {float32, complex64, compound} x '
+RULE = ('[also: chunk shapes (n, m/2) / (1, 1) / (1, m), the lzf filter, a source attribute that is an object reference to a non-ancillary dataset] [also: occupants of the same kind but twice as wide, of transposed shape; new_attrs left at its default; the element type given as a string / np.dtype; the File object of another file as destination; the returned object and all four links observed] generator datasets (chunked / gzip-compressed or neither) x requested dtypes {float32, complex64, compound} x '
         'destinations {same group, other group, other file} x names with and without "-" x sequences of 1-3 calls with '
         'data written in between, x prior occupants of the name (compatible dataset, dataset of another shape/dtype, a '
         'group); non-trivial = a repeated call or a prior occupant')
@@ -40,6 +40,9 @@ def generate(seed, tier):
                       # another file being the File object itself
                       'attrs_default': rng.random() < 0.25, 'dtype_as': rng.choice(['class', 'class', 'str', 'npdtype']),
                       'file_dest': rng.random() < 0.4})
+        cases[-1]['layout_variant'] = derived_rng(seed, 'C18v', i).randint(0, 3)
+        # an attribute of the source that is an object reference to something that is NOT one of its ancillaries
+        cases[-1]['extra_ref'] = derived_rng(seed, 'C18r', i).random() < 0.3
         if cases[-1]['attrs_default']:
             for c in cases[-1]['calls']:
                 c['new_attrs'] = {}
@@ -54,6 +57,16 @@ def _layout(inp):
     kw = {'chunks': (max(1, n // 2), m)}
     if inp['layout'] == 'gzip':
         kw['compression'] = 'gzip'
+    # other chunk shapes and filters (chosen by the case itself, so that the random stream is what it was)
+    v = inp.get('layout_variant', 0)
+    if v == 1:
+        kw['chunks'] = (n, max(1, m // 2))
+    elif v == 2:
+        kw['chunks'] = (1, 1)
+    elif v == 3:
+        kw['chunks'] = (1, m)
+        if inp['layout'] == 'gzip':
+            kw['compression'] = 'lzf'
     return kw
 
 
@@ -83,6 +96,8 @@ def run_impl(inp, work):
         g = f.create_group('G')
         src = gen.write_usid(g, ds, **_layout(inp))
         src.attrs['user_attr'] = 7
+        if inp.get('extra_ref'):
+            src.attrs['calibration'] = g.create_dataset('calib', data=np.arange(3)).ref
         src_anc = (f.filename, f[src.attrs['Position_Indices']].name)
         dest = {'same': g, 'other_group': f.create_group('H'),
                 'other_file': ((fo if inp.get('file_dest') else fo.create_group('X')) if fo else None)}[inp['dest']]
@@ -135,6 +150,14 @@ def run_impl(inp, work):
             rec['all_links'] = [((ff[d.attrs[k]].file.filename, ff[d.attrs[k]].name) ==
                                  (f.filename, f[src.attrs[k]].name)) if k in d.attrs else None
                                 for k in ('Position_Indices', 'Position_Values', 'Spectroscopic_Indices', 'Spectroscopic_Values')]
+            if inp.get('extra_ref'):
+                # the extra object reference must still lead, from the new dataset, to the calibration data
+                try:
+                    tgt = ff[d.attrs['calibration']]
+                    rec['extra_ref_ok'] = bool(np.array_equal(tgt[()], np.arange(3)) and
+                                               (inp['dest'] == 'other_file' or tgt.name == g['calib'].name))
+                except Exception as e:      # noqa
+                    rec['extra_ref_ok'] = False
             if rec['links'] == 'copies':
                 # faithful copies: same contents and labels as the source's ancillaries
                 ok = True
@@ -150,7 +173,8 @@ def run_impl(inp, work):
         after = others()
         anc_names = ('Position_Indices', 'Position_Values', 'Spectroscopic_Indices', 'Spectroscopic_Values')
         out['others_unchanged'] = all(after.get(k) == v for k, v in others_before.items()) and \
-            all(k in others_before or (inp['dest'] == 'other_file' and k in anc_names) for k in after)
+            all(k in others_before or (inp['dest'] == 'other_file' and (k in anc_names or (k in ('calib', 'calibration') and inp.get('extra_ref'))))
+                for k in after)
     finally:
         f.close()
         if fo is not None:
@@ -186,6 +210,9 @@ def oracle(inp, obs):
             fails.append('attrs: descriptive / new attributes missing: %s (%s)' % (rec['attrs'], what))
         if not rec['new_vals_ok'] or not rec['src_vals_ok']:
             fails.append('attr-values: attribute values differ from the source\'s / the requested new ones (%s)' % what)
+        if rec.get('extra_ref_ok') is False:
+            fails.append('extra-reference: the source\'s reference attribute to a non-ancillary dataset does not lead to that '
+                         'data from the new dataset (%s)' % what)
         if not rec['is_main']:
             fails.append('is-main: the created dataset is not a valid Main dataset (%s)' % what)
         want_links = 'source' if inp['dest'] != 'other_file' else 'copies'
